@@ -11,7 +11,7 @@ from checks import gb_mon41 as M
 from checks.gb_mon41 import AXIAL, ULP, hooke, hooke_inv, seqv, rand_dir, rand_elastic, fl, hexs
 
 H_STEP = 2e-6         # largest finite-difference step on the strain components
-NJ_EPS = 1e-8         # perturbation used by numerical-jacobian solvers (parameter numerical_jacobian_epsilon)
+NJ_EPS = 1e-9         # perturbation used by numerical-jacobian solvers (parameter numerical_jacobian_epsilon)
 
 
 def setup_case(kind, g, b, lib, name, hyp, spec):
